@@ -176,6 +176,18 @@ def check_tree(run, rng, tree, engine: str, case_id: Any, share: Optional[bool] 
         share = isinstance(case_id, int) and case_id % 3 == 1
     case = {'id': case_id, 'tree': tree, 'share': share}
     memo: Optional[dict] = {} if share else None
+    if isinstance(case_id, int) and case_id % 4 == 2:
+        # history: an earlier, unrelated parse that stops early (single_block leaves a looked-ahead token in ITS tokenizer),
+        # or a tokenizer dropped after a peek - the parses below start from a clean state
+        try:
+            if case_id % 8 == 2:
+                Keyvalues.parse('"Name" "Value"', single_block=True)
+            else:
+                from srctools.tokenizer import Tokenizer as _Tk
+                _Tk('{ "left" "behind" }').peek()
+        except Exception:
+            pass
+        run.count('parses_after_an_abandoned_tokenizer')
     kv = build(tree, memo)
     if memo and memo.get('__hits__'):
         run.count('trees_with_one_object_in_two_places')
@@ -397,7 +409,7 @@ def main(run, shard=(0, 1)) -> None:
     probe.report(run)
     probe.check_reached(run)
     run.require('serialise_calls', 'parse_calls', 'real_file_deliveries', 'roundtrips_after_edit', 'trees_with_escape_char_in_block_name',
-                'trees_with_one_object_in_two_places', 'prebuilt_tokenizer_deliveries', 'serialise_into_sinks')
+                'trees_with_one_object_in_two_places', 'prebuilt_tokenizer_deliveries', 'serialise_into_sinks', 'parses_after_an_abandoned_tokenizer')
 
 
 def replay(run, data) -> None:
